@@ -595,7 +595,20 @@ impl EpisodeState {
         }
         let boosted: &[Cmd] = match self.focus {
             1 => &[Cmd::ToggleFlows, Cmd::NextTrace, Cmd::PreviousTrace, Cmd::NextHop, Cmd::PreviousHop, Cmd::ToggleFreeze, Cmd::NextHopAddress, Cmd::ClearTraceData, Cmd::NextTrace, Cmd::NextHop],
-            2 => &[Cmd::ToggleFreeze, Cmd::ClearTraceData, Cmd::NextHop, Cmd::PreviousHop, Cmd::NextHopAddress, Cmd::ToggleHopDetails, Cmd::ToggleFreeze, Cmd::ExpandPrivacy],
+            2 => &[
+                Cmd::ToggleFreeze,
+                Cmd::ClearTraceData,
+                Cmd::NextHop,
+                Cmd::PreviousHop,
+                Cmd::NextHopAddress,
+                Cmd::ToggleHopDetails,
+                Cmd::ToggleFreeze,
+                Cmd::ExpandPrivacy,
+                Cmd::ClearTraceData,
+                Cmd::ExpandHostsMax,
+                Cmd::ExpandHosts,
+                Cmd::ContractHosts,
+            ],
             3 => &[Cmd::ToggleHopDetails, Cmd::NextHopAddress, Cmd::PreviousHopAddress, Cmd::NextHop, Cmd::PreviousHop, Cmd::NextHopAddress, Cmd::ExpandHosts, Cmd::ToggleFreeze],
             _ => &[],
         };
@@ -902,6 +915,16 @@ fn scenario_for(t: &mut Tape, cfg: &TrippyConfig, target: IpAddr, trace_id: u16,
     sc.faults.tick_base_ns = 2_000;
     sc.faults.tick_jitter_ns = 0;
     sc.stable = false;
+    // a target one or two hops away on a lossy link: whole rounds go unanswered while the
+    // target's distance is remembered (hops on display, none of them with an address)
+    if t.chance(120) {
+        for path in &mut sc.net.paths {
+            path.routers.truncate(usize::from(t.chance(500)));
+        }
+        sc.net.route_change = None;
+        sc.net.resp_loss_pm = 250 + t.draw(400);
+        sc.tracer.rounds = sc.tracer.rounds.max(8);
+    }
     sc
 }
 
